@@ -4,90 +4,201 @@ import Proofs.Lemmas.EmitStack
 /-!
 # The emitter and the start-predicate analysis never reach a panic site
 
-`EmitIn n`: every `CharSet` / `ByteSet` node of the tree has at most `MAX_CHAR_SET_LENGTH = 4`
-elements and every `ByteSequence` node is non-empty (the last conjunct is what
-`AbstractStartPredicate::disjunction`'s `s1[0]` / `s2[0]` need; the emitter itself does not need it).
+* `SetsLe4 n`: every `CharSet` / `ByteSet` node of the tree has at most `MAX_CHAR_SET_LENGTH = 4`
+  elements. This is all `Emitter::emit_node` needs.
+* `NoEmptySeq n`: every `ByteSequence` node is non-empty. This is what
+  `AbstractStartPredicate::disjunction`'s `s1[0]` / `s2[0]` need (`startpred_needs_nonempty` shows the
+  panic otherwise).
+* `EmitIn n := SetsLe4 n ∧ NoEmptySeq n`, with Boolean checkers and `Decidable` instances.
 
-* `emitNode_ok`: on such a tree `emitNode` returns `.ok`, and only appends to / patches the
+* `emitNode_ok`: on a `SetsLe4` tree `emitNode` returns `.ok`, and only appends to / patches the
   instructions it emitted itself (`Ext`: the instructions present at entry are unchanged) — which is
   why the `Alt` / `Jump` / `EnterLoop` / `Lookaround` placeholders are still there when they are
-  fixed up.
+  fixed up, and why `get_insn` never indexes out of bounds.
+* `lowerLoop_ok`: `lower_code_point_sequence` never fails (`expand_code_point` yields 1..4 code
+  points, `C10.expand_le_4`); `chunks_len`: `chunks(16)` yields chunks of 1..16 bytes.
 * `computeStartPredicate_ok`: no `Sequence` predicate is ever empty.
-* `emit_total`, `startpred_total`, `emitViaStack_total`.
+* `C07.emit_total`, `C07.startpred_total`, `C07.emitNode_total`, `C07.emitViaStack_total`.
 -/
 namespace Regress.VM
 
 open Regress.IR (Node Quant Regex)
 open Regress.Gen
 
-/-! ## The input condition -/
+/-! ## The input conditions -/
 
 mutual
-/-- Char sets and byte sets have at most 4 elements, byte sequences are non-empty. -/
-def EmitIn : Node → Prop
-  | .cat ns => EmitInList ns
-  | .alt l r => EmitIn l ∧ EmitIn r
-  | .group _ _ c => EmitIn c
-  | .look _ _ _ _ c => EmitIn c
-  | .loop b _ _ _ => EmitIn b
-  | .loop1 b _ => EmitIn b
-  | .byteSeq bs => bs ≠ []
+/-- Every `ByteSet` and `CharSet` node has at most `MAX_CHAR_SET_LENGTH = 4` elements (what the emitter
+needs). -/
+def SetsLe4 : Node → Prop
+  | .cat ns => SetsLe4List ns
+  | .alt l r => SetsLe4 l ∧ SetsLe4 r
+  | .group _ _ c => SetsLe4 c
+  | .look _ _ _ _ c => SetsLe4 c
+  | .loop b _ _ _ => SetsLe4 b
+  | .loop1 b _ => SetsLe4 b
   | .byteSet bs => bs.length ≤ 4
   | .charSet cs => cs.length ≤ 4
   | _ => True
-def EmitInList : List Node → Prop
+def SetsLe4List : List Node → Prop
   | [] => True
-  | n :: ns => EmitIn n ∧ EmitInList ns
+  | n :: ns => SetsLe4 n ∧ SetsLe4List ns
 end
 
 mutual
-/-- Executable form of `EmitIn`. -/
-def emitInB : Node → Bool
-  | .cat ns => emitInListB ns
-  | .alt l r => emitInB l && emitInB r
-  | .group _ _ c => emitInB c
-  | .look _ _ _ _ c => emitInB c
-  | .loop b _ _ _ => emitInB b
-  | .loop1 b _ => emitInB b
-  | .byteSeq bs => !bs.isEmpty
+/-- Executable form of `SetsLe4`. -/
+def setsLe4B : Node → Bool
+  | .cat ns => setsLe4ListB ns
+  | .alt l r => setsLe4B l && setsLe4B r
+  | .group _ _ c => setsLe4B c
+  | .look _ _ _ _ c => setsLe4B c
+  | .loop b _ _ _ => setsLe4B b
+  | .loop1 b _ => setsLe4B b
   | .byteSet bs => decide (bs.length ≤ 4)
   | .charSet cs => decide (cs.length ≤ 4)
   | _ => true
-def emitInListB : List Node → Bool
+def setsLe4ListB : List Node → Bool
   | [] => true
-  | n :: ns => emitInB n && emitInListB ns
+  | n :: ns => setsLe4B n && setsLe4ListB ns
 end
 
 mutual
-theorem emitInB_iff : (n : Node) → (emitInB n = true ↔ EmitIn n)
-  | .cat ns => by simp only [emitInB, EmitIn]; exact emitInListB_iff ns
-  | .alt l r => by simp only [emitInB, EmitIn, Bool.and_eq_true, emitInB_iff l, emitInB_iff r]
-  | .group _ _ c => by simp only [emitInB, EmitIn]; exact emitInB_iff c
-  | .look _ _ _ _ c => by simp only [emitInB, EmitIn]; exact emitInB_iff c
-  | .loop b _ _ _ => by simp only [emitInB, EmitIn]; exact emitInB_iff b
-  | .loop1 b _ => by simp only [emitInB, EmitIn]; exact emitInB_iff b
-  | .byteSeq bs => by cases bs <;> simp [emitInB, EmitIn]
-  | .byteSet bs => by simp [emitInB, EmitIn]
-  | .charSet cs => by simp [emitInB, EmitIn]
-  | .empty => by simp [emitInB, EmitIn]
-  | .goal => by simp [emitInB, EmitIn]
-  | .char _ => by simp [emitInB, EmitIn]
-  | .matchAny => by simp [emitInB, EmitIn]
-  | .matchAnyExceptLT => by simp [emitInB, EmitIn]
-  | .anchor _ _ => by simp [emitInB, EmitIn]
-  | .wordBoundary _ _ => by simp [emitInB, EmitIn]
-  | .backRef _ _ => by simp [emitInB, EmitIn]
-  | .bracket _ => by simp [emitInB, EmitIn]
-  | .stringSet _ _ => by simp [emitInB, EmitIn]
-theorem emitInListB_iff : (ns : List Node) → (emitInListB ns = true ↔ EmitInList ns)
-  | [] => by simp [emitInListB, EmitInList]
+theorem setsLe4B_iff : (n : Node) → (setsLe4B n = true ↔ SetsLe4 n)
+  | .cat ns => by simp only [setsLe4B, SetsLe4]; exact setsLe4ListB_iff ns
+  | .alt l r => by simp only [setsLe4B, SetsLe4, Bool.and_eq_true, setsLe4B_iff l, setsLe4B_iff r]
+  | .group _ _ c => by simp only [setsLe4B, SetsLe4]; exact setsLe4B_iff c
+  | .look _ _ _ _ c => by simp only [setsLe4B, SetsLe4]; exact setsLe4B_iff c
+  | .loop b _ _ _ => by simp only [setsLe4B, SetsLe4]; exact setsLe4B_iff b
+  | .loop1 b _ => by simp only [setsLe4B, SetsLe4]; exact setsLe4B_iff b
+  | .byteSeq bs => by cases bs <;> simp [setsLe4B, SetsLe4]
+  | .byteSet bs => by simp [setsLe4B, SetsLe4]
+  | .charSet cs => by simp [setsLe4B, SetsLe4]
+  | .empty => by simp [setsLe4B, SetsLe4]
+  | .goal => by simp [setsLe4B, SetsLe4]
+  | .char _ => by simp [setsLe4B, SetsLe4]
+  | .matchAny => by simp [setsLe4B, SetsLe4]
+  | .matchAnyExceptLT => by simp [setsLe4B, SetsLe4]
+  | .anchor _ _ => by simp [setsLe4B, SetsLe4]
+  | .wordBoundary _ _ => by simp [setsLe4B, SetsLe4]
+  | .backRef _ _ => by simp [setsLe4B, SetsLe4]
+  | .bracket _ => by simp [setsLe4B, SetsLe4]
+  | .stringSet _ _ => by simp [setsLe4B, SetsLe4]
+theorem setsLe4ListB_iff : (ns : List Node) → (setsLe4ListB ns = true ↔ SetsLe4List ns)
+  | [] => by simp [setsLe4ListB, SetsLe4List]
   | n :: ns => by
-    simp only [emitInListB, EmitInList, Bool.and_eq_true, emitInB_iff n, emitInListB_iff ns]
+    simp only [setsLe4ListB, SetsLe4List, Bool.and_eq_true, setsLe4B_iff n, setsLe4ListB_iff ns]
 end
+
+theorem SetsLe4List_iff : (ns : List Node) → (SetsLe4List ns ↔ ∀ n ∈ ns, SetsLe4 n)
+  | [] => by simp [SetsLe4List]
+  | n :: ns => by simp [SetsLe4List, SetsLe4List_iff ns]
+
+/-! Unfolding lemmas (the predicate is compositional and does not look at quantifiers or groups). -/
+theorem SetsLe4_cat (ns : List Node) : SetsLe4 (.cat ns) ↔ ∀ n ∈ ns, SetsLe4 n := by
+  rw [SetsLe4]; exact SetsLe4List_iff ns
+theorem SetsLe4_alt (l r : Node) : SetsLe4 (.alt l r) ↔ SetsLe4 l ∧ SetsLe4 r := by rw [SetsLe4]
+theorem SetsLe4_group (i : Nat) (nm : Option (List Nat)) (c : Node) : SetsLe4 (.group i nm c) ↔ SetsLe4 c := by
+  rw [SetsLe4]
+theorem SetsLe4_look (ng bw : Bool) (sg eg : Nat) (c : Node) : SetsLe4 (.look ng bw sg eg c) ↔ SetsLe4 c := by
+  rw [SetsLe4]
+theorem SetsLe4_loop (b : Node) (q : Quant) (g0 g1 : Nat) : SetsLe4 (.loop b q g0 g1) ↔ SetsLe4 b := by rw [SetsLe4]
+theorem SetsLe4_loop1 (b : Node) (q : Quant) : SetsLe4 (.loop1 b q) ↔ SetsLe4 b := by rw [SetsLe4]
+
+theorem SetsLe4_byteSet (bs : List Nat) : SetsLe4 (.byteSet bs) ↔ bs.length ≤ 4 := by rw [SetsLe4]
+theorem SetsLe4_charSet (cs : List Nat) : SetsLe4 (.charSet cs) ↔ cs.length ≤ 4 := by rw [SetsLe4]
+
+mutual
+/-- No `ByteSequence` node is empty (what `startpredicate::disjunction` needs for `s1[0]` / `s2[0]`).
+Not an invariant of every single pass: `form_literal_bytes` leaves emptied sequences behind, which
+`remove_empties` deletes later in the same round of `optimize`. -/
+def NoEmptySeq : Node → Prop
+  | .cat ns => NoEmptySeqList ns
+  | .alt l r => NoEmptySeq l ∧ NoEmptySeq r
+  | .group _ _ c => NoEmptySeq c
+  | .look _ _ _ _ c => NoEmptySeq c
+  | .loop b _ _ _ => NoEmptySeq b
+  | .loop1 b _ => NoEmptySeq b
+  | .byteSeq bs => bs ≠ []
+  | _ => True
+def NoEmptySeqList : List Node → Prop
+  | [] => True
+  | n :: ns => NoEmptySeq n ∧ NoEmptySeqList ns
+end
+
+mutual
+/-- Executable form of `NoEmptySeq`. -/
+def noEmptySeqB : Node → Bool
+  | .cat ns => noEmptySeqListB ns
+  | .alt l r => noEmptySeqB l && noEmptySeqB r
+  | .group _ _ c => noEmptySeqB c
+  | .look _ _ _ _ c => noEmptySeqB c
+  | .loop b _ _ _ => noEmptySeqB b
+  | .loop1 b _ => noEmptySeqB b
+  | .byteSeq bs => !bs.isEmpty
+  | _ => true
+def noEmptySeqListB : List Node → Bool
+  | [] => true
+  | n :: ns => noEmptySeqB n && noEmptySeqListB ns
+end
+
+mutual
+theorem noEmptySeqB_iff : (n : Node) → (noEmptySeqB n = true ↔ NoEmptySeq n)
+  | .cat ns => by simp only [noEmptySeqB, NoEmptySeq]; exact noEmptySeqListB_iff ns
+  | .alt l r => by simp only [noEmptySeqB, NoEmptySeq, Bool.and_eq_true, noEmptySeqB_iff l, noEmptySeqB_iff r]
+  | .group _ _ c => by simp only [noEmptySeqB, NoEmptySeq]; exact noEmptySeqB_iff c
+  | .look _ _ _ _ c => by simp only [noEmptySeqB, NoEmptySeq]; exact noEmptySeqB_iff c
+  | .loop b _ _ _ => by simp only [noEmptySeqB, NoEmptySeq]; exact noEmptySeqB_iff b
+  | .loop1 b _ => by simp only [noEmptySeqB, NoEmptySeq]; exact noEmptySeqB_iff b
+  | .byteSeq bs => by cases bs <;> simp [noEmptySeqB, NoEmptySeq]
+  | .byteSet bs => by simp [noEmptySeqB, NoEmptySeq]
+  | .charSet cs => by simp [noEmptySeqB, NoEmptySeq]
+  | .empty => by simp [noEmptySeqB, NoEmptySeq]
+  | .goal => by simp [noEmptySeqB, NoEmptySeq]
+  | .char _ => by simp [noEmptySeqB, NoEmptySeq]
+  | .matchAny => by simp [noEmptySeqB, NoEmptySeq]
+  | .matchAnyExceptLT => by simp [noEmptySeqB, NoEmptySeq]
+  | .anchor _ _ => by simp [noEmptySeqB, NoEmptySeq]
+  | .wordBoundary _ _ => by simp [noEmptySeqB, NoEmptySeq]
+  | .backRef _ _ => by simp [noEmptySeqB, NoEmptySeq]
+  | .bracket _ => by simp [noEmptySeqB, NoEmptySeq]
+  | .stringSet _ _ => by simp [noEmptySeqB, NoEmptySeq]
+theorem noEmptySeqListB_iff : (ns : List Node) → (noEmptySeqListB ns = true ↔ NoEmptySeqList ns)
+  | [] => by simp [noEmptySeqListB, NoEmptySeqList]
+  | n :: ns => by
+    simp only [noEmptySeqListB, NoEmptySeqList, Bool.and_eq_true, noEmptySeqB_iff n, noEmptySeqListB_iff ns]
+end
+
+theorem NoEmptySeqList_iff : (ns : List Node) → (NoEmptySeqList ns ↔ ∀ n ∈ ns, NoEmptySeq n)
+  | [] => by simp [NoEmptySeqList]
+  | n :: ns => by simp [NoEmptySeqList, NoEmptySeqList_iff ns]
+
+/-! Unfolding lemmas (the predicate is compositional and does not look at quantifiers or groups). -/
+theorem NoEmptySeq_cat (ns : List Node) : NoEmptySeq (.cat ns) ↔ ∀ n ∈ ns, NoEmptySeq n := by
+  rw [NoEmptySeq]; exact NoEmptySeqList_iff ns
+theorem NoEmptySeq_alt (l r : Node) : NoEmptySeq (.alt l r) ↔ NoEmptySeq l ∧ NoEmptySeq r := by rw [NoEmptySeq]
+theorem NoEmptySeq_group (i : Nat) (nm : Option (List Nat)) (c : Node) : NoEmptySeq (.group i nm c) ↔ NoEmptySeq c := by
+  rw [NoEmptySeq]
+theorem NoEmptySeq_look (ng bw : Bool) (sg eg : Nat) (c : Node) : NoEmptySeq (.look ng bw sg eg c) ↔ NoEmptySeq c := by
+  rw [NoEmptySeq]
+theorem NoEmptySeq_loop (b : Node) (q : Quant) (g0 g1 : Nat) : NoEmptySeq (.loop b q g0 g1) ↔ NoEmptySeq b := by rw [NoEmptySeq]
+theorem NoEmptySeq_loop1 (b : Node) (q : Quant) : NoEmptySeq (.loop1 b q) ↔ NoEmptySeq b := by rw [NoEmptySeq]
+
+theorem NoEmptySeq_byteSeq (bs : List Nat) : NoEmptySeq (.byteSeq bs) ↔ bs ≠ [] := by rw [NoEmptySeq]
+
+/-- The input condition of `emit`: `SetsLe4` for `emit_node`, `NoEmptySeq` for `predicate_for_re`. -/
+def EmitIn (n : Node) : Prop := SetsLe4 n ∧ NoEmptySeq n
+
+/-- Executable form of `EmitIn`. -/
+def emitInB (n : Node) : Bool := setsLe4B n && noEmptySeqB n
+
+theorem emitInB_iff (n : Node) : emitInB n = true ↔ EmitIn n := by
+  simp only [emitInB, EmitIn, Bool.and_eq_true, setsLe4B_iff, noEmptySeqB_iff]
 
 /-- Soundness of the checker. -/
 theorem EmitIn.of_check {n : Node} (h : emitInB n = true) : EmitIn n := (emitInB_iff n).1 h
 
+instance (n : Node) : Decidable (SetsLe4 n) := decidable_of_iff _ (setsLe4B_iff n)
+instance (n : Node) : Decidable (NoEmptySeq n) := decidable_of_iff _ (noEmptySeqB_iff n)
 instance (n : Node) : Decidable (EmitIn n) := decidable_of_iff _ (emitInB_iff n)
 
 /-! ## The frame: instructions present at entry stay what they are -/
@@ -438,9 +549,9 @@ theorem emitGroupBegin_ext (id : Nat) (name : Option (List Nat)) (s : EmitState)
   exact (ext_emitInsn _ _).congr_left rfl
 
 mutual
-/-- `emit_node` reaches none of its panic sites on a tree satisfying `EmitIn`, and leaves the
+/-- `emit_node` reaches none of its panic sites on a tree satisfying `SetsLe4`, and leaves the
 instructions emitted before it alone. -/
-theorem emitNode_ok : (n : Node) → EmitIn n → (s : EmitState) → ∃ s', emitNode n s = .ok s' ∧ Ext s s'
+theorem emitNode_ok : (n : Node) → SetsLe4 n → (s : EmitState) → ∃ s', emitNode n s = .ok s' ∧ Ext s s'
   | .empty, _, s => ⟨s, by simp [emitNode], Ext.refl s⟩
   | .goal, _, s => ⟨_, by rw [emitNode], ext_emitInsn _ s⟩
   | .char _, _, s => ⟨_, by rw [emitNode], ext_emitInsn _ s⟩
@@ -453,32 +564,32 @@ theorem emitNode_ok : (n : Node) → EmitIn n → (s : EmitState) → ∃ s', em
     · exact ⟨_, by rw [emitNode]; rfl, ext_emitInsn _ s⟩
     · exact ⟨_, by rw [emitNode]; rfl, ext_emitInsn _ s⟩
   | .byteSeq bs, _, s => by rw [emitNode]; exact emitByteSequence_ok bs s
-  | .byteSet bs, h, s => by rw [emitNode]; exact emitByteSetInsn_ok (by simpa [EmitIn] using h) s
-  | .charSet cs, h, s => by rw [emitNode]; exact emitCharSet_ok (by simpa [EmitIn] using h) s
+  | .byteSet bs, h, s => by rw [emitNode]; exact emitByteSetInsn_ok (by simpa [SetsLe4] using h) s
+  | .charSet cs, h, s => by rw [emitNode]; exact emitCharSet_ok (by simpa [SetsLe4] using h) s
   | .bracket bc, _, s => by rw [emitNode]; exact emitBracket_ok bc s
   | .stringSet alts icase, _, s => by rw [emitNode]; exact emitStringSet_ok alts icase s
   | .cat ns, h, s => by
-    rw [emitNode]; exact emitNodes_ok ns (by simpa [EmitIn] using h) s
+    rw [emitNode]; exact emitNodes_ok ns (by simpa [SetsLe4] using h) s
   | .loop1 l q, h, s => by
-    obtain ⟨s', e', x'⟩ := emitNode_ok l (by simpa [EmitIn] using h) (emitInsn (.loop1 q.min (maxIters q) q.greedy) s)
+    obtain ⟨s', e', x'⟩ := emitNode_ok l (by simpa [SetsLe4] using h) (emitInsn (.loop1 q.min (maxIters q) q.greedy) s)
     exact ⟨s', by rw [emitNode]; exact e', (ext_emitInsn _ s).trans x'⟩
   | .group id name c, h, s => by
-    obtain ⟨s', e', x'⟩ := emitNode_ok c (by simpa [EmitIn] using h) (emitGroupBegin id name s)
+    obtain ⟨s', e', x'⟩ := emitNode_ok c (by simpa [SetsLe4] using h) (emitGroupBegin id name s)
     exact ⟨_, by rw [emitNode_group, e']; rfl, ((emitGroupBegin_ext id name s).trans x').emitInsn _⟩
   | .loop l q g0 g1, h, s => by
     obtain ⟨x1, hidx, hg⟩ := emitLoopEnter_spec q g0 g1 s
-    obtain ⟨s2, e2, x2⟩ := emitNode_ok l (by simpa [EmitIn] using h) (emitLoopEnter q g0 g1 s).1
+    obtain ⟨s2, e2, x2⟩ := emitNode_ok l (by simpa [SetsLe4] using h) (emitLoopEnter q g0 g1 s).1
     obtain ⟨s3, e3, x3⟩ := emitLoopFinish_ok (idx := (emitLoopEnter q g0 g1 s).2) (x1.trans x2)
       (by omega) (by rw [hidx]; exact x2.get hg)
     exact ⟨s3, by rw [emitNode_loop, e2]; exact e3, x3⟩
   | .look ng bw sg eg c, h, s => by
     obtain ⟨x1, hidx, x, k, hg, hk⟩ := emitLookBegin_spec ng bw sg eg s
-    obtain ⟨s2, e2, x2⟩ := emitNode_ok c (by simpa [EmitIn] using h) (emitLookBegin ng bw sg eg s).1
+    obtain ⟨s2, e2, x2⟩ := emitNode_ok c (by simpa [SetsLe4] using h) (emitLookBegin ng bw sg eg s).1
     obtain ⟨s3, e3, x3⟩ := emitLookFinish_ok (idx := (emitLookBegin ng bw sg eg s).2.1)
       (emitLookBegin ng bw sg eg s).2.2 (x1.trans x2) (by omega) (by rw [hidx]; exact x2.get hg) hk
     exact ⟨s3, by rw [emitNode_look, e2]; exact e3, x3⟩
   | .alt l r, h, s => by
-    have h' : EmitIn l ∧ EmitIn r := by simpa [EmitIn] using h
+    have h' : SetsLe4 l ∧ SetsLe4 r := by simpa [SetsLe4] using h
     obtain ⟨s2, e2, x2⟩ := emitNode_ok l h'.1 (emitInsn (.alt 0) s)
     obtain ⟨s4, e4, x4⟩ := emitNode_ok r h'.2 (emitInsn (.jump 0) s2)
     have hsz : s.insns.size < s2.insns.size := by have := x2.1; simp at this; omega
@@ -490,14 +601,197 @@ theorem emitNode_ok : (n : Node) → EmitIn n → (s : EmitState) → ∃ s', em
     rw [emitNode_alt]
     simp only [emitInsnOffset, e2, andThen, e4, nextOffset] at e5 ⊢
     exact e5
-theorem emitNodes_ok : (ns : List Node) → EmitInList ns → (s : EmitState) →
+theorem emitNodes_ok : (ns : List Node) → SetsLe4List ns → (s : EmitState) →
     ∃ s', emitNodes ns s = .ok s' ∧ Ext s s'
   | [], _, s => ⟨s, by simp [emitNodes], Ext.refl s⟩
   | n :: ns, h, s => by
-    have h' : EmitIn n ∧ EmitInList ns := by simpa [EmitInList] using h
+    have h' : SetsLe4 n ∧ SetsLe4List ns := by simpa [SetsLe4List] using h
     obtain ⟨s1, e1, x1⟩ := emitNode_ok n h'.1 s
     obtain ⟨s2, e2, x2⟩ := emitNodes_ok ns h'.2 s1
     exact ⟨s2, by rw [emitNodes, e1]; exact e2, x1.trans x2⟩
 end
 
+/-! ## `startpredicate.rs` -/
+
+section StartPred
+open Regress.IR
+open Regress.IR.AbstractStartPredicate
+
+/-- The doc comment of `AbstractStartPredicate::Sequence`: "Sequence of non-empty bytes". -/
+def SeqNE : AbstractStartPredicate → Prop
+  | .sequence s => s ≠ []
+  | _ => True
+
+/-- `disjunction` indexes `s1[0]` / `s2[0]` only on non-empty sequences, and keeps them non-empty. -/
+theorem disjunction_ok {x y : AbstractStartPredicate} (hx : SeqNE x) (hy : SeqNE y) :
+    ∃ d, disjunction x y = .ok d ∧ SeqNE d := by
+  cases x with
+  | arbitrary => exact ⟨_, rfl, trivial⟩
+  | sequence s1 =>
+    cases y with
+    | arbitrary => exact ⟨_, rfl, trivial⟩
+    | sequence s2 =>
+      cases s1 with
+      | nil => exact absurd rfl hx
+      | cons a as =>
+        cases s2 with
+        | nil => exact absurd rfl hy
+        | cons b bs =>
+          simp only [disjunction]
+          split
+          · rename_i h
+            refine ⟨_, rfl, ?_⟩
+            simp only [SeqNE]
+            intro hn
+            have := congrArg List.length hn
+            simp only [List.length_take, List.length_cons, List.length_nil] at this
+            omega
+          · exact ⟨_, rfl, trivial⟩
+    | set s2 =>
+      cases s1 with
+      | nil => exact absurd rfl hx
+      | cons a as => exact ⟨_, rfl, trivial⟩
+  | set s1 =>
+    cases y with
+    | arbitrary => exact ⟨_, rfl, trivial⟩
+    | sequence s2 =>
+      cases s2 with
+      | nil => exact absurd rfl hy
+      | cons b bs => exact ⟨_, rfl, trivial⟩
+    | set s2 => exact ⟨_, rfl, trivial⟩
+
+mutual
+/-- `compute_start_predicate` does not panic on a tree whose byte sequences are non-empty, and every
+`Sequence` it returns is non-empty. -/
+theorem computeStartPredicate_ok : (n : Node) → NoEmptySeq n →
+    ∃ o, computeStartPredicate n = .ok o ∧ ∀ p, o = some p → SeqNE p
+  | .byteSeq bs, h => ⟨_, by rw [computeStartPredicate], by
+      intro p hp; cases hp; simpa [NoEmptySeq, SeqNE] using h⟩
+  | .byteSet _, _ => ⟨_, by rw [computeStartPredicate], by intro p hp; cases hp; trivial⟩
+  | .empty, _ => ⟨_, by rw [computeStartPredicate], by intro p hp; cases hp; trivial⟩
+  | .goal, _ => ⟨_, by rw [computeStartPredicate], by intro p hp; cases hp; trivial⟩
+  | .backRef _ _, _ => ⟨_, by rw [computeStartPredicate], by intro p hp; cases hp; trivial⟩
+  | .charSet _, _ => ⟨_, by rw [computeStartPredicate], by intro p hp; cases hp; trivial⟩
+  | .stringSet _ _, _ => ⟨_, by rw [computeStartPredicate], by intro p hp; cases hp; trivial⟩
+  | .char _, _ => ⟨_, by rw [computeStartPredicate], by intro p hp; cases hp; trivial⟩
+  | .matchAny, _ => ⟨_, by rw [computeStartPredicate], by intro p hp; cases hp; trivial⟩
+  | .matchAnyExceptLT, _ => ⟨_, by rw [computeStartPredicate], by intro p hp; cases hp; trivial⟩
+  | .anchor _ _, _ => ⟨_, by rw [computeStartPredicate], by intro p hp; cases hp; trivial⟩
+  | .wordBoundary _ _, _ => ⟨_, by rw [computeStartPredicate], by intro p hp; cases hp; trivial⟩
+  | .bracket _, _ => ⟨_, by rw [computeStartPredicate], by intro p hp; cases hp; trivial⟩
+  | .look _ _ _ _ _, _ => ⟨_, by rw [computeStartPredicate], by intro p hp; cases hp⟩
+  | .cat ns, h => by
+    rw [computeStartPredicate]; exact firstStartPredicate_ok ns (by simpa [NoEmptySeq] using h)
+  | .group _ _ c, h => by
+    rw [computeStartPredicate]; exact computeStartPredicate_ok c (by simpa [NoEmptySeq] using h)
+  | .loop l q _ _, h => by
+    rw [computeStartPredicate]
+    split
+    · exact computeStartPredicate_ok l (by simpa [NoEmptySeq] using h)
+    · exact ⟨_, rfl, by intro p hp; cases hp; trivial⟩
+  | .loop1 l q, h => by
+    rw [computeStartPredicate]
+    split
+    · exact computeStartPredicate_ok l (by simpa [NoEmptySeq] using h)
+    · exact ⟨_, rfl, by intro p hp; cases hp; trivial⟩
+  | .alt l r, h => by
+    have h' : NoEmptySeq l ∧ NoEmptySeq r := by simpa [NoEmptySeq] using h
+    obtain ⟨x, ex, hx⟩ := computeStartPredicate_ok l h'.1
+    obtain ⟨y, ey, hy⟩ := computeStartPredicate_ok r h'.2
+    rw [computeStartPredicate, ex, ey]
+    dsimp only
+    cases x with
+    | none => exact ⟨_, rfl, by intro p hp; cases hp; trivial⟩
+    | some x =>
+      cases y with
+      | none => exact ⟨_, rfl, by intro p hp; cases hp; trivial⟩
+      | some y =>
+        obtain ⟨d, ed, hd⟩ := disjunction_ok (hx x rfl) (hy y rfl)
+        dsimp only
+        rw [ed]
+        exact ⟨_, rfl, by intro p hp; cases hp; exact hd⟩
+theorem firstStartPredicate_ok : (ns : List Node) → NoEmptySeqList ns →
+    ∃ o, firstStartPredicate ns = .ok o ∧ ∀ p, o = some p → SeqNE p
+  | [], _ => ⟨_, by rw [firstStartPredicate], by intro p hp; cases hp⟩
+  | n :: ns, h => by
+    have h' : NoEmptySeq n ∧ NoEmptySeqList ns := by simpa [NoEmptySeqList] using h
+    obtain ⟨x, ex, hx⟩ := computeStartPredicate_ok n h'.1
+    rw [firstStartPredicate, ex]
+    cases x with
+    | none => exact firstStartPredicate_ok ns h'.2
+    | some x => exact ⟨_, rfl, hx⟩
+end
+
+end StartPred
+
 end Regress.VM
+
+/-! ## The totality statements -/
+
+namespace Regress.C07
+open Regress.VM Regress.IR
+
+/-- `startpredicate::predicate_for_re` does not panic (the `s[0]` sites of `disjunction` are the
+only ones), provided no `ByteSequence` node is empty. -/
+theorem startpred_total (r : Regex) (h : NoEmptySeq r.node) : ∃ p, predicateForRe r = .ok p := by
+  obtain ⟨o, e, _⟩ := computeStartPredicate_ok r.node h
+  unfold predicateForRe
+  split
+  · exact ⟨_, rfl⟩
+  · rw [e]; exact ⟨_, rfl⟩
+
+/-- The hypothesis of `startpred_total` is needed: with an empty `ByteSequence`, `s1[0]` panics. -/
+theorem startpred_needs_nonempty :
+    predicateForRe ⟨.alt (.byteSeq []) (.byteSeq []), {}⟩ = .error .emptySequenceIndex ∧
+    predicateForRe ⟨.alt (.byteSet [0x61]) (.byteSeq []), {}⟩ = .error .emptySequenceIndex ∧
+    predicateForRe ⟨.alt (.byteSeq []) (.byteSet [0x61]), {}⟩ = .error .emptySequenceIndex :=
+  ⟨rfl, rfl, rfl⟩
+
+/-- `Emitter::emit_node` reaches none of its panic sites. -/
+theorem emitNode_total (n : Node) (h : SetsLe4 n) (s : EmitState) : ∃ s', emitNode n s = .ok s' :=
+  let ⟨s', e, _⟩ := emitNode_ok n h s; ⟨s', e⟩
+
+/-- `emit::emit` reaches no panic site: not in `lower_code_point_sequence`, `emit_byte_set_insn`,
+`emit_byte_sequence_insn`, the `CharSet` arm, the fix-ups of `Loop` / `LookaroundAssertion` / `Alt`
+/ `emit_string_set`, `get_insn`, nor in `predicate_for_re`. -/
+theorem emit_total (r : Regex) (h : EmitIn r.node) : ∃ prog, emit r = .ok prog := by
+  obtain ⟨p, ep⟩ := startpred_total r h.2
+  obtain ⟨s, es⟩ := emitNode_total r.node h.1 { unicode := r.flags.unicode }
+  unfold emit emitWith
+  rw [ep]; dsimp only; rw [es]
+  exact ⟨_, rfl⟩
+
+/-- The literal work-stack loop of `emit_node` terminates within `cost r.node + 3` pops (plus the
+nested `emit_node` calls of `emit_code_point_sequence`, which need 2) and gives the same program. -/
+theorem emitViaStack_total (r : Regex) (h : EmitIn r.node) (fuel : Nat) (hf : cost r.node + 3 ≤ fuel) :
+    ∃ prog, emitViaStack fuel r = .ok prog ∧ emit r = .ok prog := by
+  obtain ⟨prog, e⟩ := emit_total r h
+  exact ⟨prog, by rw [emitViaStack_eq r fuel hf, e], e⟩
+
+/-! Non-vacuity. -/
+
+/-- What the optimizer makes of something like `(?:ab|[xy])+(?<=[Kk\u212A])(\p{…})`. -/
+def sampleNode : Node :=
+  .cat [.loop (.alt (.byteSeq [0x61, 0x62]) (.byteSet [0x78, 0x79])) ⟨1, none, true⟩ 0 0,
+        .look false true 0 0 (.charSet [0x212A, 0x4B, 0x6B]),
+        .group 0 none (.stringSet [[0x61, 0x62], [0x63]] true), .goal]
+
+example : EmitIn sampleNode := by decide
+example : EmitIn sampleNode := EmitIn.of_check (by decide)
+example : ¬ SetsLe4 (.cat [.charSet [1, 2, 3, 4, 5]]) := by decide
+example : ¬ NoEmptySeq (.alt (.byteSeq []) .empty) := by decide
+example : cost sampleNode + 3 ≤ 20 := by decide
+
+/-- `a|[bc]{0,3}` after optimization. -/
+def smallRegex : Regex :=
+  ⟨.cat [.alt (.byteSeq [0x61]) (.loop (.byteSet [0x62, 0x63]) ⟨0, some 3, true⟩ 0 0), .goal], {}⟩
+
+example : EmitIn smallRegex.node := by decide
+
+set_option maxRecDepth 4000 in
+/-- The fix-ups really happen: `Alt`, `Jump` and `EnterLoop` get their targets. -/
+example : (emit smallRegex).toOption.map (fun p => p.insns.toList) =
+    some [.alt 3, .byteSeq [0x61], .jump 6, .enterLoop 0 0 (some 3) true 6, .byteSet [0x62, 0x63],
+      .loopAgain 3, .goal] := by decide
+
+end Regress.C07
